@@ -63,6 +63,21 @@ def gen_pool(rng) -> dict:
                 lines.append(f"w{i} {rng.randint(1, 9)};"); refs.append(f"w{i}")
         lines.extend(_entries(rng, 0, names, refs))
         pool[n] = "\n".join(lines) + rng.choice(["\n", "", "\n\n"])
+    if rng.random() < 0.4:
+        # a JSON source (never a target): string keys, typed leaves, a reference, an include of a native file; native files may include it
+        import json as _json
+        d = {"jv": rng.randint(1, 9), "jname": rng.choice(["text", "two words", "1", "true"]), "jsub": {"p": rng.randint(0, 5), "q": [1, "w"]}}
+        if rng.random() < 0.5:
+            d["jref"] = "$jv"
+        if rng.random() < 0.5:
+            d["jexpr"] = "$jv + 2"
+        if rng.random() < 0.5:
+            d = {"#include": rng.choice(names), **d}
+        pool["data.json"] = _json.dumps(d, indent=rng.choice([None, 2]))
+        if rng.random() < 0.5:
+            n0 = rng.choice(names)
+            rel = os.path.relpath("/R/data.json", os.path.dirname("/R/" + n0))
+            pool[n0] = f"#include '{rel}'\n" + pool[n0]
     return pool
 
 
@@ -80,7 +95,7 @@ def gen_dict(rng, tag):
 def gen_case(rng) -> dict:
     pool = gen_pool(rng)
     names = list(pool)
-    targets = names + ["out", "sub/new", "made/dir/o.foam", "parsed.case"]
+    targets = [n for n in names if not n.endswith(".json")] + ["out", "sub/new", "made/dir/o.foam", "parsed.case"]
     ops = []
     for i in range(rng.randint(2, 7)):
         r = rng.random()
@@ -90,7 +105,7 @@ def gen_case(rng) -> dict:
         if rng.random() < 0.3: ro["comments"] = False
         if rng.random() < 0.15: ro["scope"] = [enc_key_py(k) for k in rng.choice([["alpha"], ["beta"], ["nest", "p"], ["nope"]])]
         if r < 0.3:
-            ops.append({"k": "read", "p": rng.choice(targets), **ro})
+            ops.append({"k": "read", "p": rng.choice(targets + [n for n in names if n.endswith(".json")]), **ro})
         elif r < 0.38:
             ops.append({"k": "load", "p": rng.choice(targets)})
         elif r < 0.45:
@@ -200,8 +215,10 @@ def run_impl(case: dict, fails: list | None = None):
                     elif ordered and not _sorted_everywhere({k: v for k, v in (_peek(tgt, includes=False) or {}).items() if k != "FoamFile"}):
                         what = "written with order=True, but a dict level of the file is not sorted"
                     elif mode == "a" and before is not None:
-                        lost = [list(pth) for pth, val in _leaf_paths({k: v for k, v in before.items() if k != "FoamFile"})
-                                if not any(pth == q and spec.unordered(val) == spec.unordered(w) for q, w in _leaf_paths(after))]
+                        # (modulo the documented element-type normalisation: a string leaf that came from an included JSON file
+                        # and spells a number / boolean / none is written as that typed value)
+                        lost = [list(pth) for pth, val in _leaf_paths(spec.norm({k: v for k, v in before.items() if k != "FoamFile"}))
+                                if not any(pth == q and spec.unordered(val) == spec.unordered(w) for q, w in _leaf_paths(spec.norm(after)))]
                         if lost and not str(tgt).endswith(".foam"):
                             what = f"append lost or changed what was readable from the target before: {lost[:3]}"
                     if what:
@@ -229,7 +246,9 @@ def request(case: dict, n: int | None = None) -> dict:
             if f in o:
                 o[f] = _comps(o[f])
         ops.append(o)
-    return {"op": "api_run", "fs": [[_comps(n), {"native": t}] for n, t in case["pool"].items()], "start": case["start"], "ops": ops}
+    import json as _json
+    fs = [[_comps(n), ({"json": enc_entries(_json.loads(t))} if n.endswith(".json") else {"native": t})] for n, t in case["pool"].items()]
+    return {"op": "api_run", "fs": fs, "start": case["start"], "ops": ops}
 
 
 def process(ctx: Ctx, cases: list[dict], oracles: bool = False) -> None:
@@ -260,7 +279,7 @@ def process(ctx: Ctx, cases: list[dict], oracles: bool = False) -> None:
                 gave_up = True; break
         if gave_up:
             continue
-        mfiles = {"/".join(e[0][1:]): e[1].get("native") for e in m["fs"]}
+        mfiles = {"/".join(e[0][1:]): (e[1].get("native") if "native" in e[1] else files.get("/".join(e[0][1:]))) for e in m["fs"]}
         if mfiles != files:
             diff = sorted(k for k in set(mfiles) | set(files) if mfiles.get(k) != files.get(k))
             ctx.disagree(f"api history: file system after the history differs at {diff[:3]}", c, {k: mfiles.get(k) for k in diff[:3]}, {k: files.get(k) for k in diff[:3]})
